@@ -74,6 +74,7 @@ Theorem C06_guards_dec : forall junk ep x i s probes,
   | GErr e => snd (dec_decode junk ep x probes) = RError e
   | GOk 0 => dw_orecv (d_work x) = dw_K (d_work x) /\ exists pr, snd (dec_decode junk ep x probes) = RDec [] pr
   | GOk _ => dw_orecv (d_work x) <> dw_K (d_work x) /\ exists it pr, snd (dec_decode junk ep x probes) = RDec it pr
+  | _ => False
   end.
 Proof. intros; split; [apply dec_add_original_guard|split; [apply dec_add_recovery_guard|apply dec_begin_guard]]. Qed.
 Print Assumptions C06_guards_dec.
